@@ -2,7 +2,7 @@
    same compartments (same name, same stratum for every stratification) and as many of them. *)
 From Coq Require Import List String Bool Arith Lia Permutation.
 Import ListNotations.
-From S2 Require Import Base.Num Base.Arr Model.Expr Model.Struct.
+From S2 Require Import Base.Num Base.Arr Model.Expr Model.Struct Proofs.FlowOrder.
 Local Open Scope nat_scope.
 Local Notation length := List.length.
 
@@ -103,4 +103,71 @@ Proof.
   - intros x Hx. apply in_app_or in Hx. destruct Hx as [Hx|Hx].
     + destruct (swap_one s1 s2 c x Hn Hx) as [y [Hy Hs]]. exists y. split; [apply in_or_app; left; exact Hy | exact Hs].
     + destruct (IHm x Hx) as [y [Hy Hs]]. exists y. split; [apply in_or_app; right; exact Hy | exact Hs].
+Qed.
+
+(* ---------------------------------------------------------------- the order in which a stratification lists its strata *)
+(* listing the strata of a stratification in another order permutes the compartments it produces, and nothing else *)
+Theorem strata_order_permutes_compartments s s' cs :
+  s_name s' = s_name s -> s_comps s' = s_comps s -> Permutation (s_strata s) (s_strata s') ->
+  Permutation (stratify_comps s cs) (stratify_comps s' cs).
+Proof.
+  intros Hn Hc Hp. unfold stratify_comps. induction cs as [|c cs IH]; [constructor|].
+  cbn [flat_map]. apply Permutation_app; [|exact IH]. rewrite Hn, Hc.
+  destruct (has_name_in_list c (s_comps s)); [apply Permutation_map; exact Hp | apply Permutation_refl].
+Qed.
+
+(* ---------------------------------------------------------------- renaming *)
+(* an injective renaming of the compartment names commutes with a stratification *)
+Definition rename_comp (f : string -> string) (c : comp) : comp := {| c_name := f (c_name c); c_strata := c_strata c |}.
+
+Lemma mem_str_rename f x l : (forall a b, f a = f b -> a = b) -> mem_str (f x) (map f l) = mem_str x l.
+Proof.
+  intro Hinj. unfold mem_str. induction l as [|y l IH]; [reflexivity|]. cbn [map existsb]. rewrite IH. f_equal.
+  destruct (String.eqb x y) eqn:E.
+  - apply String.eqb_eq in E. subst. apply String.eqb_refl.
+  - apply String.eqb_neq in E. apply String.eqb_neq. intro H. apply E. apply Hinj. exact H.
+Qed.
+
+Theorem renaming_commutes_with_stratification f s s' cs :
+  (forall a b, f a = f b -> a = b) ->
+  s_name s' = s_name s -> s_strata s' = s_strata s -> s_comps s' = map f (s_comps s) ->
+  stratify_comps s' (map (rename_comp f) cs) = map (rename_comp f) (stratify_comps s cs).
+Proof.
+  intros Hinj Hn Hs Hc. unfold stratify_comps. induction cs as [|c cs IH]; [reflexivity|].
+  cbn [map flat_map]. rewrite map_app, IH. f_equal.
+  unfold has_name_in_list. cbn [rename_comp c_name]. rewrite Hc, (mem_str_rename f _ _ Hinj), Hn, Hs.
+  destruct (mem_str (c_name c) (s_comps s)); [|reflexivity].
+  rewrite map_map. apply map_ext. intro a. reflexivity.
+Qed.
+
+(* ---------------------------------------------------------------- ... and the flows *)
+(* the copies of a flow: listing the strata in another order permutes them, with the same adjustments each *)
+Theorem strata_order_permutes_flow_copies nm k l l' cmps sp fa ia mx f fl :
+  Permutation l l' ->
+  stratify_flow {| s_name := nm; s_kind := k; s_strata := l; s_comps := cmps; s_split := sp; s_fadj := fa; s_iadj := ia; s_mix := mx |} f = Ok fl ->
+  exists fl', stratify_flow {| s_name := nm; s_kind := k; s_strata := l'; s_comps := cmps; s_split := sp; s_fadj := fa; s_iadj := ia; s_mix := mx |} f = Ok fl'
+              /\ Permutation fl fl'.
+Proof.
+  intros Hp. pose proof (Permutation_length Hp) as Hl.
+  unfold stratify_flow, get_flow_adjustment, declared_for. cbn [s_name s_kind s_strata s_comps s_fadj]. rewrite <- Hl.
+  destruct (is_entry (f_kind f)).
+  { destruct (negb (opt_in_list (f_dst f) cmps)); [intro H; injection H as <-; eexists; split; [reflexivity|apply Permutation_refl]|].
+    destruct (existsb _ _); cbn [bind]; [discriminate|].
+    destruct (last_some _) as [a|].
+    - destruct (is_birth (f_kind f) && is_age k); [discriminate|]. intro H. injection H as <-. eexists. split; [reflexivity|].
+      apply Permutation_map. exact Hp.
+    - destruct (is_birth (f_kind f) && is_age k); intro H; injection H as <-; eexists; (split; [reflexivity|]).
+      + apply Permutation_map. apply filter_perm. exact Hp.
+      + apply Permutation_map. exact Hp. }
+  destruct (is_exit (f_kind f)).
+  { destruct (negb (opt_in_list (f_src f) cmps)); [intro H; injection H as <-; eexists; split; [reflexivity|apply Permutation_refl]|].
+    destruct (existsb _ _); cbn [bind]; [discriminate|]. intro H. injection H as <-. eexists. split; [reflexivity|].
+    apply Permutation_map. exact Hp. }
+  destruct (negb (opt_in_list (f_src f) cmps || opt_in_list (f_dst f) cmps)); [intro H; injection H as <-; eexists; split; [reflexivity|apply Permutation_refl]|].
+  destruct (existsb _ _); cbn [bind]; [discriminate|].
+  rewrite !map_length, <- Hl.
+  destruct (f_kind f); try (intro H; injection H as <-; eexists; split; [reflexivity|apply Permutation_map; exact Hp]).
+  destruct (_ && _); intro H; injection H as <-; eexists; (split; [reflexivity|]).
+  - apply Permutation_map. apply Permutation_map. exact Hp.
+  - apply Permutation_map. exact Hp.
 Qed.
